@@ -347,6 +347,30 @@ Qed.
 Lemma repeat_snoc : forall (A : Type) (a : A) n, repeat a n ++ [a] = repeat a (S n).
 Proof. intros A a n. induction n as [|n IH]; cbn [repeat app]; [reflexivity|f_equal; assumption]. Qed.
 
+(* number of digits from the first non-zero digit on *)
+Fixpoint drop_zeros (ds : list N) : list N :=
+  match ds with
+  | [] => []
+  | d :: r => if d =? 0 then drop_zeros r else ds
+  end.
+Definition sig_len (ds : list N) : nat := length (drop_zeros ds).
+
+Lemma sig_len_snoc_zero : forall ds,
+  sig_len (ds ++ [0]) = if Nat.eqb (sig_len ds) 0 then 0%nat else S (sig_len ds).
+Proof.
+  unfold sig_len. induction ds as [|x r IH]; [reflexivity|].
+  cbn [app drop_zeros]. destruct (x =? 0) eqn:E; [exact IH|].
+  cbn [length Nat.eqb]. rewrite app_length. cbn [length]. lia.
+Qed.
+
+Lemma sig_len_snoc_nz : forall ds d, d <> 0 -> sig_len (ds ++ [d]) = S (sig_len ds).
+Proof.
+  unfold sig_len. intros ds d Hd. induction ds as [|x r IH].
+  - cbn [app drop_zeros]. replace (d =? 0) with false by lia. reflexivity.
+  - cbn [app drop_zeros]. destruct (x =? 0) eqn:E; [exact IH|].
+    cbn [length]. rewrite app_length. cbn [length]. lia.
+Qed.
+
 Lemma nonrec_spec : forall fuel md base den sep neg ip ip_text ign num,
   2 <= base_val base <= 36 -> den <> 0 -> num < den ->
   forall j cur i tz asign td nz sign text ex,
@@ -355,6 +379,7 @@ Lemma nonrec_spec : forall fuel md base den sep neg ip ip_text ign num,
   (nz = [] \/ last nz 0 <> 0) ->
   asign = nr_sign neg nz -> td = nr_td ip_text (decimal_char sep) nz ->
   (ign = false -> i = N.of_nat j) ->
+  (ign = true -> i = N.of_nat (sig_len (iter_digits (base_val base) den j num))) ->
   nonrec_loop fuel md base den sep neg ip ip_text ign cur i tz asign td = Ok (sign, text, ex) ->
   exists (j' : nat) nz' (tz' : nat) i',
     iter_digits (base_val base) den j' num = nz' ++ repeat 0 tz' /\
@@ -364,11 +389,13 @@ Lemma nonrec_spec : forall fuel md base den sep neg ip ip_text ign num,
     (ign = false -> i' = N.of_nat j') /\ (j <= j')%nat /\
     (nz' = [] -> text = ip_text /\ sign = neg && negb (ip =? 0)) /\
     (nz' <> [] -> text = ip_text ++ [decimal_char sep] ++ map dchar nz' /\ sign = neg) /\
-    (forall n, md = DecimalPlaces n -> i <= n -> i' <= n).
+    (forall n, md = DecimalPlaces n -> i <= n -> i' <= n) /\
+    (ign = true -> i' = N.of_nat (sig_len (iter_digits (base_val base) den j' num))) /\
+    (forall n, md = DpButIgnoreLeadingZeroes n -> i <= n -> i' <= n).
 Proof.
   intros fuel md base den sep neg ip ip_text ign num Hb Hd Hn.
   set (b := base_val base) in *.
-  induction fuel as [|fuel IH]; intros j cur i tz asign td nz sign text ex Hcur Hds Hlast Has Htd Hi H;
+  induction fuel as [|fuel IH]; intros j cur i tz asign td nz sign text ex Hcur Hds Hlast Has Htd Hi Hs H;
     cbn [nonrec_loop] in H; [discriminate|].
   fold b in H. unfold next_digit in H.
   destruct (cur =? 0) eqn:Ec.
@@ -396,14 +423,22 @@ Proof.
       * (* a zero digit is withheld *)
         apply N.eqb_eq in Ez.
         apply (IH (S j) _ _ _ _ _ nz) in H; try assumption.
-        -- destruct H as (j' & nz' & tz' & i' & H1 & H2 & H3 & H4 & H5 & H6 & H7 & H8 & H9).
+        -- destruct H as (j' & nz' & tz' & i' & H1 & H2 & H3 & H4 & H5 & H6 & H7 & H8 & H9 & H10 & H11).
            exists j', nz', tz', i'. repeat split; try assumption; try lia; try (apply H7; assumption); try (apply H8; assumption).
-           intros n Hmdn Hin. apply (H9 n Hmdn). subst md. cbn [md_is_dp] in Emd.
-           destruct ((i =? 0) && ign); lia.
+           ++ intros n Hmdn Hin. apply (H9 n Hmdn). subst md. cbn [md_is_dp] in Emd.
+              destruct ((i =? 0) && ign); lia.
+           ++ intros n Hmdn Hin. apply (H11 n Hmdn). subst md. cbn [md_is_dp] in Emd.
+              destruct ((i =? 0) && ign); lia.
         -- rewrite iter_rem_snoc, <- Hcur. reflexivity.
         -- rewrite iter_digits_snoc, <- Hcur, Ez, Hds. rewrite <- app_assoc. rewrite repeat_snoc.
            f_equal. f_equal. lia.
         -- intros Hign. specialize (Hi Hign). rewrite Hign, andb_false_r. lia.
+        -- intros Hign. specialize (Hs Hign). rewrite Hign, andb_true_r.
+           rewrite iter_digits_snoc, <- Hcur, Ez, sig_len_snoc_zero.
+           destruct (i =? 0) eqn:Ei.
+           ++ apply N.eqb_eq in Ei. replace (sig_len (iter_digits b den j num)) with O by lia. cbn [Nat.eqb]. lia.
+           ++ apply N.eqb_neq in Ei. destruct (sig_len (iter_digits b den j num)) eqn:Esl; [lia|].
+              cbn [Nat.eqb]. lia.
       * (* a non-zero digit: pending zeros and the digit are printed *)
         apply N.eqb_neq in Ez.
         set (d := cur * b / den) in *.
@@ -425,9 +460,10 @@ Proof.
         rewrite digit_text_single in H by (assumption || (unfold b in *; lia)).
         cbn [bind] in H.
         apply (IH (S j) _ _ _ _ _ (nz ++ repeat 0 (N.to_nat tz) ++ [d])) in H; try assumption.
-        -- destruct H as (j' & nz' & tz' & i' & H1 & H2 & H3 & H4 & H5 & H6 & H7 & H8 & H9).
+        -- destruct H as (j' & nz' & tz' & i' & H1 & H2 & H3 & H4 & H5 & H6 & H7 & H8 & H9 & H10 & H11).
            exists j', nz', tz', i'. repeat split; try assumption; try lia; try (apply H7; assumption); try (apply H8; assumption).
-           intros n Hmdn Hin. apply (H9 n Hmdn). subst md. cbn [md_is_dp] in Emd. lia.
+           ++ intros n Hmdn Hin. apply (H9 n Hmdn). subst md. cbn [md_is_dp] in Emd. lia.
+           ++ intros n Hmdn Hin. apply (H11 n Hmdn). subst md. cbn [md_is_dp] in Emd. lia.
         -- rewrite iter_rem_snoc, <- Hcur. reflexivity.
         -- rewrite iter_digits_snoc, <- Hcur, Hds. fold d. cbn [N.to_nat repeat]. rewrite app_nil_r, <- app_assoc. reflexivity.
         -- right. rewrite !app_assoc. rewrite last_last. assumption.
@@ -438,4 +474,6 @@ Proof.
            { apply app_eq_nil in E. destruct E as (_ & E). apply app_eq_nil in E. destruct E as (_ & E). discriminate. }
            rewrite <- E. rewrite !map_app. rewrite zeros_map. cbn [map]. rewrite <- !app_assoc. reflexivity.
         -- intros Hign. specialize (Hi Hign). lia.
+        -- intros Hign. specialize (Hs Hign).
+           rewrite iter_digits_snoc, <- Hcur. fold d. rewrite sig_len_snoc_nz by assumption. lia.
 Qed.
